@@ -306,7 +306,7 @@ func lawsString(law map[string]string) string {
 
 func init() {
 	families["pure"] = func(r *rng, id string) Case {
-		kind := pick(r, []string{"val", "val", "uneval", "d7", "ref", "ref", "dyn", "repr"})
+		kind := pick(r, []string{"val", "val", "uneval", "d7", "ref", "ref", "dyn", "repr", "rec"})
 		var vc *ValCase
 		switch kind {
 		case "ref":
@@ -315,6 +315,9 @@ func init() {
 			vc = genDynCase(r, id)
 		case "repr":
 			vc = genReprCase(r, id)
+		case "rec":
+			vc = genRecTemplate(r, id)
+			kind = "val"
 		default:
 			vc = genValCase(r, id, kind)
 		}
